@@ -240,6 +240,10 @@ def r2_node_ops(P, rep, ctx):
     f = F(ctx, fi)
     own = f.calls("super()._destroy_meta(_unlink=_unlink)")
     loops = [n for n in f.g.nodes if n.kind == "for" and f.x(n.stmt.iter) in ("self.values()", "list(self.values())") and isinstance(n.stmt.target, ast.Name)]
+    if not loops and any(n.kind == "loop" for n in f.g.nodes) and f.calls("__n._destroy_meta(___)"):
+        # an explicit work list / stack instead of the recursion: whether it reaches every descendant needs an inductive
+        # argument this rule does not make -- undecided, not a finding
+        raise AnalysisError("C06.R2: MetadorGroup._destroy_meta traverses with a while loop (explicit stack / work list); coverage of all descendants is not decidable by this rule")
     ok = bool(own) and len(loops) == 1 and f.hit_before(f.g.exit, nodes=own) and f.hit_before(f.g.exit, nodes=[loops[0].idx])
     if ok:
         ch = loops[0].stmt.target.id
